@@ -60,6 +60,8 @@ type PassSpec struct {
 	Kill func(f *FuncInfo, n ast.Node) []string
 	// KillAll: node invalidates all facts (e.g. reading the next record header).
 	KillAll func(f *FuncInfo, n ast.Node) bool
+	// KillMatch: node n invalidates the fact with this id (checked for every current fact).
+	KillMatch func(f *FuncInfo, n ast.Node, id string) bool
 	// Interproc: entry facts of declared functions are the intersection over their static call sites.
 	Interproc bool
 
@@ -379,6 +381,13 @@ func (s *PassSpec) node(f *FuncInfo, ref NodeRef, in FactSet) FactSet {
 			delete(in, "pass:"+id)
 		}
 	}
+	if s.KillMatch != nil {
+		for k := range in {
+			if strings.HasPrefix(k, "pass:") && s.KillMatch(f, n, strings.TrimPrefix(k, "pass:")) {
+				delete(in, k)
+			}
+		}
+	}
 	return in
 }
 
@@ -420,7 +429,6 @@ func (s *PassSpec) edge(f *FuncInfo, from *cfg.Block, k int, in FactSet) FactSet
 					}
 				}
 			}
-			continue
 		}
 		// bool variable tests
 		if o := ObjOf(info, a.E); o != nil && a.Val {
